@@ -105,12 +105,20 @@ def sections(a, b):
     return sorted(out)
 
 
-def core(schema):
+def core(schema, related=""):
     """The schema without the relations load_schema() is known not to restore (known finding): UFH controllers/circuits,
     HVAC fans with their remotes, and the orphan lists those devices fall into."""
     out = {}
+    related += json.dumps({k: v for k, v in schema.items() if k not in ("orphans_heat", "orphans_hvac")})
     for k, v in schema.items():
-        if k in ("orphans_heat", "orphans_hvac") or (isinstance(v, dict) and "remotes" in v):
+        if k in ("orphans_heat", "orphans_hvac"):
+            # ... only: a UFH controller, a fan, and a device that is some fan's remote / sensor in this schema; any OTHER device must be an orphan on
+            # both sides or on neither
+            v = sorted(d for d in (v or []) if d[:2] not in ("02", "20", "29", "30", "32", "37") and d not in related)
+            if v:
+                out[k] = v
+            continue
+        if isinstance(v, dict) and "remotes" in v:
             continue
         if isinstance(v, dict) and re.match(r"\d\d:\d{6}", k):
             v = {k2: v2 for k2, v2 in v.items() if k2 not in ("underfloor_heating", "orphans")}
@@ -122,9 +130,16 @@ def core(schema):
     return out
 
 
-def schema_diffs(a, b):
-    """Signature suffixes for two shrunk schemas that differ."""
-    ca, cb = core(a), core(b)
+def schema_diffs(a, b, skip=()):
+    """Signature suffixes for two shrunk schemas that differ (skip: devices left out of the orphan lists)."""
+    rel = json.dumps([{k: v for k, v in x.items() if k not in ("orphans_heat", "orphans_hvac")} for x in (a, b)])      # related in EITHER schema
+    ca, cb = core(a, rel), core(b, rel)
+    for c in (ca, cb):
+        for k in ("orphans_heat", "orphans_hvac"):
+            if k in c:
+                c[k] = [d for d in c[k] if d not in skip]
+                if not c[k]:
+                    del c[k]
     if ("main_tcs" in ca) != ("main_tcs" in cb):   # the main controller was one that only had such relations
         ca.pop("main_tcs", None)
         cb.pop("main_tcs", None)
@@ -219,7 +234,11 @@ async def fixpoint_trial(lines, cfg, eav, crafted=False, reads=0):
                 what = "lost" if lost else "extra" if extra else "changed"
                 bad.append((f"fixpoint-packets-differ:{what}", f"include_expired={inc} lost={[p1[k][:60] for k in lost[:2]]} extra={[p2[k][:60] for k in extra[:2]]}", ""))
             if not eav and shrink(sch1) != shrink(sch2):
-                for sec in schema_diffs(shrink(sch1), shrink(sch2)):
+                # a replay gateway's clock is the timestamp of the last packet of its OWN log (the epoch for the empty log g2 was started with), so in g2 every
+                # restored packet looks live; whether a system-less device is listed (as an orphan) depends on its messages being live: a device with an
+                # expired packet in the snapshot is left out of the comparison of the orphan lists
+                stale_devs = {by_key[k].src.id for k in p1 if k in by_key and by_key[k]._expired}
+                for sec in schema_diffs(shrink(sch1), shrink(sch2), skip=stale_devs):
                     bad.append((f"fixpoint-schema-differs:{sec}", f"include_expired={inc}", json.dumps([shrink(sch1), shrink(sch2)])[:1500]))
             # the same snapshot again (twice), and into the gateway it came from
             await g2._restore_cached_packets(p1)
@@ -414,7 +433,10 @@ def run(ctx: Ctx) -> None:
         try:
             reads = 0 if kind == "crafted-313F" or len(lines) < 12 else rng.choice((0, 0, 5))
             bad, _ = gw.run_async(fixpoint_trial, lines, cfg, eav, False, reads)
-            if reads and len(lines) >= 30:
+            # independence of earlier reads is stated for a clock that does not run backwards: expiry is a latch (C14: it never un-happens), so a read taken
+            # while a rewinding log's clock stood LATER sees a message expired that the rewound clock at the end would still call live
+            monotone = all(a[:26] <= b[:26] for a, b in zip(lines, lines[1:]))
+            if reads and len(lines) >= 30 and monotone:
                 bad += gw.run_async(early_reads_trial, lines, cfg, eav)[0]
         except Exception as err:  # noqa: BLE001
             import traceback  # noqa: PLC0415
